@@ -774,7 +774,7 @@ def bounds(tier):
         "ladder_sizes": {"coord_x": len(COORD_X), "coord_yz": len(COORD_YZ), "b_factor": len(B_FULL) + len(B32_FULL),
                          "occupancy": len(OCC_FULL), "charge": len(CHARGE_FULL), "res_id": len(RES_DEC),
                          "atom_id": len(AID_DEC), "name_x_element": len(NAMES) * len(ELEMS), "box": len(BOXES)},
-        "bond_graphs": "all graphs on 2-3 atoms x 6^n residue kinds" + (", 4 atoms x 4^4 kinds" if tier == "thorough" else "")
+        "bond_graphs": "all graphs on 2-3 atoms x 6^n residue kinds" + (", 4 atoms x 4^4 kinds (5 of the 10 id-scheme/container combinations)" if tier == "thorough" else "")
                        + "; stars with 4-9 partners; dictionary residues",
         "hybrid36_widths_complete": [1, 2, 3, 4] + ([5] if tier == "thorough" else []),
         "hybrid36_width5": "complete" if tier == "thorough" else "first and last 3000 values of each of the 53 blocks",
@@ -1229,6 +1229,8 @@ def bond_cases(shard):
                 edges = [list(e) for b, e in enumerate(all_edges) if mask >> b & 1]
                 for ids, h36 in ID_COMBOS:
                     for stack in (False, True):
+                        if n == 4 and (ids == "gap" or (stack and ids != "default")):
+                            continue  # 4-atom graphs: default ids (array+stack, both modes) and the A0000 crossing
                         yield {"kind": "bonds", "what": "word", "word": word, "edges": edges, "ids": ids,
                                "h36": h36, "stack": stack}
     else:
